@@ -323,7 +323,7 @@ pub fn scenarios(prop: &str, tier: &str) -> Vec<Arc<dyn Scenario>> {
                 am.major = vec![u64::MAX];
                 am.flush_sealed = false;
                 am.rotate = false;
-                let bd = if quick { bs(2, 2, 0, 0, 0) } else { bs(3, 3, 0, 0, 0) };
+                let bd = if quick { bs(3, 2, 0, 0, 0) } else { bs(3, 3, 0, 0, 0) };
                 v.push(std("C02-midsnap", c, am, bd, seeds_upto(1), OracleKind::C02));
             }
             if quick {
@@ -336,19 +336,19 @@ pub fn scenarios(prop: &str, tier: &str) -> Vec<Arc<dyn Scenario>> {
                     OracleKind::C02,
                 ));
                 v.push(std(
-                    "C02-seeds1-112-special",
+                    "C02-seeds1-212-special",
                     TreeCfg::small(keys_ab()),
                     a.clone(),
-                    bs(1, 1, 2, 0, 1),
+                    bs(2, 1, 2, 0, 1),
                     seeds_upto(1),
                     OracleKind::C02,
                 ));
                 // key-value separated tree: its own get / scan entry points resolve the snapshot's version
                 v.push(std(
-                    "C02-blob-111-special",
+                    "C02-blob-212-special",
                     TreeCfg::small(keys_ab()).with_blob(1),
                     a.clone(),
-                    bs(1, 1, 1, 0, 1),
+                    bs(2, 1, 2, 0, 1),
                     seeds_upto(1),
                     OracleKind::C02,
                 ));
@@ -503,7 +503,7 @@ pub fn scenarios(prop: &str, tier: &str) -> Vec<Arc<dyn Scenario>> {
                 v.push(Arc::new(crate::scanmc::C03::new(
                     "C03-b1", TreeCfg::small(keys.clone()), a.clone(), b(2, 2, 1, 0), vec![vec![]], false)));
                 v.push(Arc::new(crate::scanmc::C03::new(
-                    "C03-b4096", c2, a.clone(), b(2, 1, 1, 0), vec![vec![]], false)));
+                    "C03-b4096", c2, a.clone(), b(2, 2, 1, 0), vec![vec![]], false)));
             } else {
                 v.push(Arc::new(crate::scanmc::C03::new(
                     "C03-b1", TreeCfg::small(keys.clone()), a.clone(), b(3, 3, 1, 0), vec![vec![]], true)));
@@ -555,6 +555,9 @@ pub fn scenarios(prop: &str, tier: &str) -> Vec<Arc<dyn Scenario>> {
             a.wms = vec![Wm::Zero, Wm::Tight];
             if quick {
                 v.push(std("C15-std", TreeCfg::small(keys.clone()), a.clone(), bs(1, 0, 1, 1, 1), seeds.clone(), OracleKind::C15));
+                let mut ab = a.clone();
+                ab.drop_ranges = ab.drop_ranges.into_iter().step_by(3).collect();
+                v.push(std("C15-blob", TreeCfg::small(keys.clone()).with_blob(1), ab, bs(1, 0, 1, 1, 1), seeds.clone(), OracleKind::C15));
             } else {
                 a.flush = true;
                 a.major = vec![1];
@@ -874,14 +877,14 @@ pub fn scenarios(prop: &str, tier: &str) -> Vec<Arc<dyn Scenario>> {
                     (0..5u8).map(|k| (k, if k == 0 { IKind::Tomb } else { IKind::Val })).collect(),
                 ];
                 a4.extra = vec![Op::MultiPut { ks: vec![0, 1, 2, 3, 4] }, Op::MultiDel { ks: vec![1, 2, 3, 4] }];
-                let bd = if quick { bs(3, 1, 1, 0, 0) } else { bs(4, 2, 1, 1, 0) };
+                let bd = if quick { bs(3, 2, 1, 0, 0) } else { bs(4, 2, 1, 1, 0) };
                 v.push(std("C14-block4096", c, a4, bd, vec![vec![]], OracleKind::C14));
                 // key-value separated tree: its ingestion has its own finish path
                 let mut ab = a.clone();
                 ab.ingests.push(vec![(0, IKind::BigVal)]);
                 if quick {
                     ab.ingests = vec![vec![(0, IKind::Val)], vec![(0, IKind::BigVal), (1, IKind::Tomb)]];
-                    v.push(std("C14-blob-quick", TreeCfg::small(keys_ab()).with_blob(16), ab, bs(2, 1, 0, 0, 0), vec![vec![]], OracleKind::C14));
+                    v.push(std("C14-blob-quick", TreeCfg::small(keys_ab()).with_blob(16), ab, bs(2, 2, 1, 1, 0), vec![vec![]], OracleKind::C14));
                 }
             }
             if quick {
